@@ -64,17 +64,23 @@ def propagate(el, c, tau):
     th, n0pp, a0pp, xi, b0, eta = c["th"], c["n0pp"], c["a0pp"], c["xi"], c["b0"], c["eta"]
     C1, D2, D3, D4 = c["C1"], c["D2"], c["D3"], c["D4"]
     small = e0 <= 1e-4
+    simp = c["perigee"] < 220.0      # the report: truncate a and IL after C1, drop C5, delta-omega, delta-M
     MDF = M0 + c["Mdot"] * tau
     wDF = w0 + c["wdot"] * tau
     ODF = O0 + c["Odot"] * tau
-    dw = 0.0 if small else bstar * c["C3"] * math.cos(w0) * tau
-    dM = 0.0 if small else -2.0 / 3.0 * Q0MS4 * bstar * xi ** 4 / (e0 * eta) * ((1 + eta * math.cos(MDF)) ** 3 - (1 + eta * math.cos(M0)) ** 3)
+    dw = 0.0 if (small or simp) else bstar * c["C3"] * math.cos(w0) * tau
+    dM = 0.0 if (small or simp) else -2.0 / 3.0 * Q0MS4 * bstar * xi ** 4 / (e0 * eta) * ((1 + eta * math.cos(MDF)) ** 3 - (1 + eta * math.cos(M0)) ** 3)
     Mp = MDF + dw + dM
     w = wDF - dw - dM
     Om = ODF - 10.5 * n0pp * K2 * th / (a0pp ** 2 * b0 ** 2) * C1 * tau ** 2
-    e = e0 - bstar * c["C4"] * tau - bstar * c["C5"] * (math.sin(Mp) - math.sin(M0))
+    if simp:
+        D2 = D3 = D4 = 0.0
+    e = e0 - bstar * c["C4"] * tau - (0.0 if simp else bstar * c["C5"] * (math.sin(Mp) - math.sin(M0)))
     a = a0pp * (1 - C1 * tau - D2 * tau ** 2 - D3 * tau ** 3 - D4 * tau ** 4) ** 2
-    IL = Mp + w + Om + n0pp * (1.5 * C1 * tau ** 2 + (D2 + 2 * C1 ** 2) * tau ** 3
+    if simp:
+        IL = Mp + w + Om + n0pp * 1.5 * C1 * tau ** 2
+    else:
+      IL = Mp + w + Om + n0pp * (1.5 * C1 * tau ** 2 + (D2 + 2 * C1 ** 2) * tau ** 3
                                + 0.25 * (3 * D3 + 12 * C1 * D2 + 10 * C1 ** 3) * tau ** 4
                                + 0.2 * (3 * D4 + 12 * C1 * D3 + 6 * D2 ** 2 + 30 * C1 ** 2 * D2 + 15 * C1 ** 4) * tau ** 5)
     e = min(max(e, 1e-6), 1 - 1e-6)          # AIAA-2006-6753 clamp (inactive on the report's range)
